@@ -195,6 +195,28 @@ def check_case(case, res=None):
                 bv = _serialize(s, cls, inst_view, it["mode"])
                 if bv != b0:
                     raise Violation("array_unaffected_by_caller_mutation", cj, b0, bv, "sequence view over a mutated list")
+                # arrays of small integers may be handed over as bytes / bytearray buffers
+                bufs = {k: v for k, v in kw.items() if isinstance(v, list) and v and all(type(x) is int and 0 <= x <= 255 for x in v)}
+                if bufs:
+                    for mk in (bytearray, bytes):
+                        kw_b = dict(kw)
+                        held = {}
+                        for k, v in bufs.items():
+                            held[k] = kw_b[k] = mk(v)
+                        try:
+                            inst_b = cls(**kw_b)
+                        except Exception as e:  # noqa
+                            raise Violation("array_argument_any_iterable", cj, "instance", f"{type(e).__name__}: {e}", mk.__name__)
+                        for k in bufs:
+                            if type(getattr(inst_b, k)) is not tuple:
+                                raise Violation("array_member_is_tuple", cj, "tuple", type(getattr(inst_b, k)).__name__,
+                                                f"{k} built from {mk.__name__}")
+                        if mk is bytearray:
+                            for k in bufs:
+                                held[k][:] = bytes(len(held[k]) + 2)
+                        bb = _serialize(s, cls, inst_b, it["mode"])
+                        if bb != b0:
+                            raise Violation("array_unaffected_by_caller_mutation", cj, b0, bb, f"{mk.__name__} argument")
                 snapshot = {k: tuple(getattr(inst, k)) for k in owned}
                 for k, lst in owned.items():
                     if type(getattr(inst, k)) is not tuple:
